@@ -160,6 +160,13 @@ func (e *c23Env) op(f []string) (out string) {
 	n := func(i int) int { return c20Atoi(arg(i)) }
 	okb := func(i int) bool { return n(i) == 0 || n(i) == 1 }
 	// the C20 generator appends a version reference to some ops; C23 only accepts "N" (none) there
+	// ... and a fault selector to puts / appends; C23 accepts only "no fault" (0, 1) there
+	if l := len(f); (arg(0) == "P" && l == 10) || (arg(0) == "A" && l == 6) {
+		if f[l-1] != "0" && f[l-1] != "1" {
+			return "BadOp"
+		}
+		f = f[:l-1]
+	}
 	if l := len(f); l > 0 && f[l-1] == "N" {
 		switch {
 		case arg(0) == "D" && l == 5, arg(0) == "T" && l == 5, arg(0) == "U" && l == 4, arg(0) == "R" && l == 6:
